@@ -46,6 +46,10 @@ class Rec:
         return f'Rec({self.f})'
 
 
+class _GenList(list):
+    """The items of a generator expression (evaluated eagerly). A list for every consumer; next() takes items from the front."""
+
+
 class LambdaVal:
     """A lambda expression closed over the environment it was created in."""
 
@@ -161,18 +165,36 @@ class SigBound(PyModel):
 
     @property
     def args(self):
+        # inspect.BoundArguments.args: the leading run of positional parameters that have a value - it ends at the first one left out
         out = []
         for p in self.signature.parameters.values():
+            if p.kind in (SigParam.VAR_KEYWORD, SigParam.KEYWORD_ONLY) or p.name not in self.arguments:
+                break
             if p.kind == SigParam.VAR_POSITIONAL:
-                out.extend(self.arguments.get(p.name, ()))
-            elif p.kind in (SigParam.POSITIONAL_OR_KEYWORD, SigParam.POSITIONAL_ONLY) and p.name in self.arguments:
+                out.extend(self.arguments[p.name])
+            else:
                 out.append(self.arguments[p.name])
         return tuple(out)
 
     @property
     def kwargs(self):
-        return {p.name: self.arguments[p.name] for p in self.signature.parameters.values()
-                if p.kind == SigParam.KEYWORD_ONLY and p.name in self.arguments}
+        # ... and everything after that run goes by keyword
+        out = {}
+        started = False
+        for p in self.signature.parameters.values():
+            if not started:
+                if p.kind in (SigParam.VAR_KEYWORD, SigParam.KEYWORD_ONLY):
+                    started = True
+                elif p.name not in self.arguments:
+                    started = True
+                    continue
+            if not started or p.name not in self.arguments:
+                continue
+            if p.kind == SigParam.VAR_KEYWORD:
+                out.update(self.arguments[p.name])
+            else:
+                out[p.name] = self.arguments[p.name]
+        return out
 
 
 class Sig(PyModel):
@@ -1001,6 +1023,8 @@ class Interp:
         if isinstance(n, (ast.ListComp, ast.GeneratorExp, ast.SetComp)):
             out = []
             self._comp(n.generators, 0, lambda: out.append(self.ev(n.elt)))
+            if isinstance(n, ast.GeneratorExp):
+                return _GenList(out)            # evaluated eagerly; next() consumes it from the front like the iterator it stands for
             return set(out) if isinstance(n, ast.SetComp) else out
         if isinstance(n, ast.DictComp):
             outd = {}
@@ -1368,6 +1392,19 @@ class Interp:
             raise Unmodelled('getattr on a symbolic value')
         if isinstance(fn, ast.Name) and fn.id == 'vars' and fn.id not in self.env and len(args) == 1 and isinstance(args[0], Rec):
             return args[0].f        # the live attribute dictionary of the instance
+        if isinstance(fn, ast.Name) and fn.id == 'next' and fn.id not in self.env and len(args) in (1, 2) and not kwargs:
+            if isinstance(args[0], _GenList):
+                if args[0]:
+                    return args[0].pop(0)
+                if len(args) == 2:
+                    return args[1]
+                raise ExcRaised(Ref('builtin:StopIteration'))
+            if isinstance(args[0], (list, tuple, dict, set, str)):
+                raise ExcRaised(Ref('builtin:TypeError'))          # not an iterator
+            raise Unmodelled('next() of a symbolic iterator')
+        if isinstance(fn, ast.Name) and fn.id == 'iter' and fn.id not in self.env and len(args) == 1 and not kwargs \
+                and isinstance(args[0], (list, tuple, set, dict, str)) and not isinstance(args[0], _GenList):
+            return _GenList(list(args[0]))
         if isinstance(fn, ast.Name) and fn.id == 'setattr' and fn.id not in self.env and len(args) == 3 and isinstance(args[1], str):
             obj = args[0]
             if isinstance(obj, Rec):
